@@ -260,7 +260,11 @@ def h_linear(env, mapping, n, utd, monos_a, monos_b, n_electrons=None, spin=0, c
     kw = dict(n_spinorbitals=n, up_then_down=utd, n_electrons=n_electrons, spin=spin)
 
     def mp(op):
-        return dict(fermion_to_qubit_mapping(op, mapping, **kw).terms)
+        before = dict(op.terms)
+        out = dict(fermion_to_qubit_mapping(op, mapping, **kw).terms)
+        if op.terms != before:
+            env.fail(f"{mapping} utd={utd}: fermion_to_qubit_mapping leaves its input operator unchanged", f"{before} -> {dict(op.terms)}"[:300])
+        return out
 
     def comb(cs, monos):
         op = FermionOperator()
@@ -459,7 +463,13 @@ def h_comb(env, m, na, nb, canary=False):
     old = shim.ALLOC_OBJECT
     shim.ALLOC_OBJECT = bool(env.symbolic)
     try:
+        before = dict(H.terms)
         q = cmod.combinatorial(H, m, (na, nb)).terms
+        # encoding reads its input: the caller's operator (constant included) is the same afterwards, so that encoding it again
+        # - with this or any other mapping - gives the same result
+        keys = sorted(set(before) | set(H.terms), key=str)
+        env.check_same([k for k in keys if k not in H.terms or k not in before], [], "combinatorial() leaves the term set of its input operator unchanged")
+        env.check_vec_eq([H.terms.get(k, 0) for k in keys], [before.get(k, 0) for k in keys], "combinatorial() leaves the coefficients of its input operator unchanged")
     finally:
         shim.ALLOC_OBJECT = old
     # documented basis numbering: lexicographic rank per spin (module function basis()), alpha-major composition
